@@ -301,9 +301,41 @@ def make_world(fs):
         def get(self, k, d=None):
             return self.groups.get(k, d)
 
+        def visititems(self, fn):
+            for name in ("events", "events/deform"):
+                r = fn(name, H5Dataset() if "/" in name else self)
+                if r is not None:
+                    return r
+
+    class H5Dataset:
+        pass
+
     class h5py_shim:
         File = H5File
         Group = H5File
+        Dataset = H5Dataset
+
+    class shutil_shim:
+        """whole-file operations: one step each"""
+        @staticmethod
+        def copy2(src, dst, **kw):
+            src, dst = FPath(src), FPath(dst)
+            fs.tick("copy %s -> %s" % (src.s, dst.s))
+            if src.k not in fs.files:
+                raise FileNotFoundError(src.s)
+            old = fs.files.get(dst.k)
+            if old is not None and old.is_input:
+                fs.input_violations.append("input %s overwritten by copy"
+                                           % dst.s)
+            f = fs.new_file(dst.k)
+            f.writes += 1
+            return dst
+        copy = copyfile = copy2
+
+        @staticmethod
+        def move(src, dst, **kw):
+            FPath(src).rename(dst)
+            return dst
 
     def rtdc_copy(src_h5file, dst_h5file, **kw):
         for i in range(2):
@@ -438,7 +470,9 @@ def make_world(fs):
         get_tdms_files=lambda p: sorted(
             FPath(x) for x in fs.files if x.startswith(str(p) + "/") and
             x.endswith(".tdms")))
-    shims = dict(pathlib=pathlib_shim, h5py=h5py_shim, rtdc_copy=rtdc_copy,
+    shims = dict(shutil=shutil_shim,
+                 is_properly_compressed=lambda obj: bool(fs.compressed),
+                 pathlib=pathlib_shim, h5py=h5py_shim, rtdc_copy=rtdc_copy,
                  RTDCWriter=RTDCWriter, new_dataset=new_dataset,
                  common=common, util=util_shim, fmt_hdf5=fmt_hdf5,
                  fmt_tdms=fmt_tdms)
@@ -523,6 +557,7 @@ def expected_outputs(p, outs):
 def run_once(p, fault_at, kind):
     fs = FS(fault_at, kind)
     fs.warn = bool(p.get("warn"))
+    fs.compressed = bool(p.get("compressed"))
     tasks, FPath = make_world(fs)
     inputs, outs = scenario(fs, FPath, p)
     in_ids = {x: fs.files[x].ident for x in inputs}
@@ -609,6 +644,11 @@ def cases(tier, seed):
                 out.append(("%s %s distinct warnings" % (t, kind),
                             dict(task=t, kind=kind, out="distinct",
                                  stale=False, warn=True)))
+        if t in ("compress", "repack"):
+            for kind in ("raise", "kill"):
+                out.append(("%s %s distinct, input already compressed" % (
+                    t, kind), dict(task=t, kind=kind, out="distinct",
+                                   stale=False, compressed=True)))
         if t != "split":
             for variant in ("same-as-input", "input-without-suffix",
                             "other-spelling-of-input"):
@@ -640,7 +680,8 @@ def replay(case, params, v):
     """real files + the real task; faults are injected by wrapping the real
     h5py / pathlib operations that the task performs (in a forked child)"""
     key = (params["task"], params["out"], str(v.get("what")),
-           bool(params.get("warn")), str(params.get("stale")))
+           bool(params.get("warn")), str(params.get("stale")),
+           bool(params.get("compressed")))
     if key not in _RCACHE:
         _RCACHE[key] = _replay(case, params, v)
     return _RCACHE[key]
@@ -789,7 +830,14 @@ def replay_fault(p, fault_at, what, detail):
         with tempfile.TemporaryDirectory(prefix="verif_c10_") as td, quiet():
             pins = [os.path.join(td, "in%d.rtdc" % i) for i in range(3)]
             for i, x in enumerate(pins):
-                _make_input(x, i)
+                if p.get("compressed"):
+                    # the product of an earlier dclab-compress run
+                    import dclab.cli as cli
+                    _make_input(x + ".raw.rtdc", i)
+                    cli.compress(path_in=x + ".raw.rtdc", path_out=x)
+                    os.remove(x + ".raw.rtdc")
+                else:
+                    _make_input(x, i)
             # reference
             ref_dir = os.path.join(td, "ref")
             os.mkdir(ref_dir)
